@@ -82,6 +82,10 @@ static int g_mode = ABTV_MODE_OFF, g_active; /* g_active: between run_begin and 
 static uint64_t g_steps, g_budget = 3000000, g_epoch, g_last_progress;
 static uint64_t g_sched_rng, g_drv_rng;
 static int g_sw_permille = 1000;
+/* in a third of the runs an arbitrary actor is held back for a long while at an arbitrary hooked
+ * operation, a few times per run: opens windows that are only a few instructions wide */
+static int g_rs_mode;
+static uint64_t g_rs_next;
 static int64_t g_vclock, g_tick = 1000;
 static uint64_t IDLE_T = 64, STUCK_T = 1500;
 static int g_perturb;
@@ -326,6 +330,11 @@ static void point_locked(int op, int force)
     }
     if (nact == 1 || t_noswitch > 0)
         return;
+    if (g_rs_mode && g_steps >= g_rs_next) {
+        A[me].stalled_until = g_steps + 30 + xs(&g_sched_rng) % 800;
+        g_rs_next = g_steps + 200 + xs(&g_sched_rng) % 4000;
+        force = 1;
+    }
     if (A[me].stall_at > 0 && --A[me].stall_at == 0) {
         A[me].stalled_until = g_steps + A[me].stall_steps;
         force = 1;
@@ -1052,6 +1061,8 @@ void abtv_run_begin(const char *scn, uint64_t seed)
     g_sw_permille = sw[xs(&g_sched_rng) % 6];
     if (getenv("ABTV_SW"))
         g_sw_permille = atoi(getenv("ABTV_SW"));
+    g_rs_mode = (xs(&g_sched_rng) % 3) == 0 && !getenv("ABTV_NO_RSTALL");
+    g_rs_next = 50 + xs(&g_sched_rng) % 1500;
     g_steps = 0;
     g_epoch = 1;
     g_last_progress = 0;
@@ -1074,7 +1085,7 @@ void abtv_run_begin(const char *scn, uint64_t seed)
         me = 0;
     }
     abtv_ev("\"e\":\"Reset\",\"scn\":\"%s\",\"seed\":%llu,\"mode\":\"%s\",\"sw\":%d", scn,
-            (unsigned long long)seed, g_mode == ABTV_MODE_SERIAL ? "R" : "F", g_sw_permille);
+            (unsigned long long)seed, g_mode == ABTV_MODE_SERIAL ? (g_rs_mode ? "RS" : "R") : "F", g_sw_permille);
     g_active = 1;
 }
 void abtv_run_end(void)
